@@ -11,9 +11,9 @@ CONSTANTS MODE,          \* "compose" | "arith" | "reduce" | ...
           PF, TF, PG, TG,\* alphabet names
           LAYOUTS, EMIT
 
-VARIABLES stage, f, g, h, op, aff
+VARIABLES stage, f, g, h, op, aff, sched
 
-vars == <<stage, f, g, h, op, aff>>
+vars == <<stage, f, g, h, op, aff, sched>>
 None == [none |-> TRUE]
 
 FSet == TreesN(NF, PredSet(PF), TermSet(TF), K)
@@ -22,25 +22,26 @@ Ops == CASE MODE = "compose" -> {"compose"}
          [] MODE = "arith" -> {"add", "sub", "mul", "div"}
          [] MODE = "reduce" -> {"reduce"}
          [] MODE = "arithaff" -> {"neg", "add_aff", "sub_aff", "mul_aff", "div_aff"}
+         [] OTHER -> {}
 
-Init == stage = "init" /\ f = None /\ g = None /\ h = None /\ op = "" /\ aff = None
+Init == stage = "init" /\ f = None /\ g = None /\ h = None /\ op = "" /\ aff = None /\ sched = <<>>
 
 PickF == \E x \in FSet, lay \in LAYOUTS :
     /\ stage = "init"
-    /\ ~(lay = "hole" /\ (x.t # "D" \/ ScriptOf(x, K, "hole") = ScriptOf(x, K, "dfs")))
+    /\ ~(lay \in {"hole", "low"} /\ (x.t # "D" \/ ScriptOf(x, K, lay) = ScriptOf(x, K, "dfs")))
     /\ f' = [abs |-> x, lay |-> lay, t |-> BuildTree(x, K, lay)]
-    /\ stage' = "f" /\ UNCHANGED <<g, h, op, aff>>
+    /\ stage' = "f" /\ UNCHANGED <<g, h, op, aff, sched>>
 PickG == \E x \in GSet :
     /\ stage = "f" /\ MODE \in {"compose", "arith"}
     /\ g' = [abs |-> x, lay |-> "dfs", t |-> BuildTree(x, K, "dfs")]
-    /\ stage' = "fg" /\ UNCHANGED <<f, h, op, aff>>
+    /\ stage' = "fg" /\ UNCHANGED <<f, h, op, aff, sched>>
 Apply == \E o \in Ops :
     /\ (stage = "fg" /\ MODE \in {"compose", "arith"}) \/ (stage = "f" /\ MODE = "reduce")
     /\ op' = o
     /\ h' = CASE o = "compose" -> Compose(f.t, g.t)
               [] o \in {"add", "sub", "mul", "div"} -> Arith(o, f.t, g.t)
               [] o = "reduce" -> Reduce(f.t)
-    /\ stage' = "done" /\ UNCHANGED <<f, g, aff>>
+    /\ stage' = "done" /\ UNCHANGED <<f, g, aff, sched>>
 
 \* tree (op) affine: the operator is applied to every terminal (tree first); -tree
 UnaryOnTerminals(t, F(_)) == [t EXCEPT !.nodes = [i \in Occ(t) |-> IF t.nodes[i].leaf THEN SetAff(t.nodes[i], F(AffOf(t.nodes[i]))) ELSE t.nodes[i]]]
@@ -51,9 +52,17 @@ ApplyAff == \E o \in Ops, a \in TermSet(TG) :
     /\ op' = o /\ aff' = a
     /\ h' = IF o = "neg" THEN NegTree(f.t)
             ELSE UnaryOnTerminals(f.t, LAMBDA ta : OutAff(CoeffWise(SubSeq(o, 1, 3), Out(ta.m, ta.b, ta.q), Out(a.m, a.b, a.q))))
-    /\ stage' = "done" /\ UNCHANGED <<f, g>>
+    /\ stage' = "done" /\ UNCHANGED <<f, g, sched>>
 
-Next == PickF \/ PickG \/ Apply \/ ApplyAff
+\* regions (C09): the tree itself is observed; a schedule "n" x |tree| with skip_subtree after the positions of S
+SchedOf(n, S) == LET RECURSIVE G(_) G(j) == IF j > n THEN <<>> ELSE <<"n">> \o (IF j \in S THEN <<"s">> ELSE <<>>) \o G(j + 1) IN G(1)
+ApplyRegions == \E S \in SUBSET (1..(IF stage = "f" THEN Cardinality(Occ(f.t)) ELSE 0)) :
+    /\ stage = "f" /\ MODE = "regions"
+    /\ Cardinality(S) <= NG                       \* NG = maximal number of skip positions in this mode
+    /\ op' = "regions" /\ h' = f.t /\ sched' = SchedOf(Cardinality(Occ(f.t)), S)
+    /\ stage' = "done" /\ UNCHANGED <<f, g, aff>>
+
+Next == PickF \/ PickG \/ Apply \/ ApplyAff \/ ApplyRegions
 Spec == Init /\ [][Next]_vars
 
 \* ------------------------------------------------------------------ properties at design level
@@ -73,6 +82,11 @@ LawArith == (stage = "done" /\ op \in {"add", "sub", "mul", "div"}) => PwlEqUpTo
 LawArithAff == (stage = "done" /\ MODE = "arithaff") =>
     PwlEq(PH0, IF op = "neg" THEN {[cons |-> p.cons, out |-> NegOut(p.out)] : p \in PF0}
                ELSE LiftPieces(SubSeq(op, 1, 3), PF0, {[cons |-> {}, out |-> Out(aff.m, aff.b, aff.q)]}), D)
+\* C09: the closed path polytope reported for a node (what PolyhedraGen builds) contains the node's routing region, and its
+\* interior is routed through the node; distinct terminals have disjoint interiors
+LawRegions == (stage = "done" /\ MODE = "regions") =>
+    /\ \A i \in Occ(h) : Subset(RouteRegion(h, i), ClosedRegion(h, i), D) /\ Subset(Strict(ClosedRegion(h, i)), RouteRegion(h, i), D)
+    /\ \A i, j \in {x \in Occ(h) : h.nodes[x].leaf} : i = j \/ ~Feas(Strict(ClosedRegion(h, i)) \cup Strict(ClosedRegion(h, j)), D)
 \* C08: reduce keeps the function, never grows, is idempotent, leaves no mergeable pair below the root
 LawReduce == (stage = "done" /\ op = "reduce") =>
     /\ PwlEq(PH0, PF0, D)
@@ -88,7 +102,7 @@ ResultWellFormed == stage = "done" => (WellFormed(f.t) => WellFormed(h))
 Emit ==
     (EMIT /\ stage' = "done") =>
         PrintT("SCRIPT " \o ToJson(
-            [fam |-> "afftree", k |-> K, q |-> IF op' \in {"div", "div_aff"} THEN 12 ELSE 1, mode |-> MODE,
+            [fam |-> IF MODE = "regions" THEN "regions" ELSE "afftree", sched |-> sched', k |-> K, q |-> IF op' \in {"div", "div_aff"} THEN 12 ELSE 1, mode |-> MODE,
              lhs |-> ScriptOf(f'.abs, K, f'.lay),
              rhs |-> IF g' = None THEN <<>> ELSE ScriptOf(g'.abs, K, "dfs"),
              op |-> op', aff |-> IF aff' = None THEN [m |-> <<>>, b |-> <<>>, q |-> 1] ELSE aff',
